@@ -23,6 +23,7 @@ static char* g_cur = 0;
 static long g_lineno = 0;
 static int g_first_field = 1;
 static int g_op_timeout = 20;
+static long g_op_work = 0;                // work units (element constructions) of the current operation, see tracked.h
 
 static const char* tok_next()
 {
@@ -113,6 +114,7 @@ int main(int argc, char** argv)
     const char* op = tok_next();
     if(!op || op[0] == '#') continue;
     alarm(g_op_timeout);
+    g_op_work = 0;
     if(strcmp(op, "reset") == 0)
     {
       drv_reset();
